@@ -14,7 +14,7 @@ pub fn run_case(case: &Case) -> Outcome {
             sched::run(
                 params,
                 case.plan.clone(),
-                || crate::uci::uci_talk().map_err(|e| format!("{:#}", e)),
+                || MainRet::into_res(crate::uci::uci_talk()),
                 Some(move || crate::gui::run_script(steps, tags)),
             )
         }
@@ -43,6 +43,21 @@ pub fn run_case(case: &Case) -> Outcome {
             eprintln!("HARNESS-ERROR: this case needs an entry point of the engine that this build of the simulator does not call (built without the `direct` or `selfplay` feature)");
             std::process::exit(2);
         }
+    }
+}
+
+/// what the front end's main function returns, read as "did it end in an error"
+trait MainRet {
+    fn into_res(self) -> Result<(), String>;
+}
+impl MainRet for () {
+    fn into_res(self) -> Result<(), String> {
+        Ok(())
+    }
+}
+impl<T, E: std::fmt::Display> MainRet for Result<T, E> {
+    fn into_res(self) -> Result<(), String> {
+        self.map(|_| ()).map_err(|e| format!("{:#}", e))
     }
 }
 
